@@ -341,6 +341,75 @@ def float_enc(x: float, tail: bytes) -> bool:
     return done()
 
 
+def tuple_mixed_ints(a: int, b: int, c: int, tail: bytes) -> bool:
+    """
+    pre: 0 <= a < 256 and 0 <= b < 2**64 and -2**15 <= c < 2**15
+    pre: len(tail) <= 1
+    post: __return__
+    """
+    # all-scalar tuples whose members have different widths (no padding between fields, whatever the order)
+    order = SHARD["order"]
+    names = ["uint8_t", "uint64_t", "int16_t"]
+    vals = [a, b, c]
+    perm = [(0, 1, 2), (1, 0, 2), (2, 0, 1), (0, 2, 1)][order]
+    tn = "tuple<%s>" % ",".join(names[i] for i in perm)
+    val = tuple(vals[i] for i in perm)
+    raw = _encode(val, tn)
+    if FMT():
+        if len(raw) != 11:
+            return fail("length of %s" % tn)
+        pos = 0
+        for i in perm:
+            n, signed = R.INTS[names[i]]
+            if R.le_value(raw[pos:pos + n], n, signed) != vals[i]:
+                return fail("field %s of %s" % (names[i], tn))
+            pos += n
+    back, pos = _decode_at(raw + tail, tn)
+    if not (isinstance(back, tuple) and len(back) == 3 and all(back[k] == val[k] for k in range(3))):
+        return fail("round trip of %s" % tn)
+    if pos != len(raw):
+        return fail("consumed")
+    if SHARD.get("nested"):
+        tn2 = "sequence<%s>" % tn
+        raw2 = _encode([val, val], tn2)
+        back2, pos2 = _decode_at(raw2 + tail, tn2)
+        if not (len(back2) == 2 and back2[0] == val and back2[1] == val and pos2 == len(raw2) and len(raw2) == 8 + 22):
+            return fail("nested %s" % tn2)
+    return done()
+
+
+SPECIAL_STRINGS = ["\ufeff", "\ufeffa", "a\ufeff", "\ufeff\ufeff", "\ufffe", "\x00", "\x00a", "\u2028", "\r\n", "\ud7ff\ue000", "\U0010ffff", " a ", "\x7f\x80", "%s", "\\"]
+
+
+def string_spot(i: int, j: int) -> bool:
+    """
+    pre: 0 <= i < len(SPECIAL_STRINGS) and 0 <= j < len(SPECIAL_STRINGS)
+    post: __return__
+    """
+    # special first / last characters (byte-order mark, NUL, line separators, plane boundaries): concrete, because the
+    # codec tables of str.decode are C code; single strings, mapping keys that differ only by such a character, sets
+    a, b = SPECIAL_STRINGS[pick(i, len(SPECIAL_STRINGS))], SPECIAL_STRINGS[pick(j, len(SPECIAL_STRINGS))]
+    with untraced():
+        ok = True
+        e = bytes(_encode(a, "string"))
+        ok = ok and e == R.ref_encode(("string", ()), a) and _ser.decode(e, "string") == a
+        back, pos = _decode_at(e + b"\x01", "string")
+        ok = ok and back == a and pos == len(e)
+        if a != b:
+            d = dict()
+            d[a] = 1
+            d[b] = 2
+            e2 = bytes(_encode(d, "mapping<string,uint8_t>"))
+            back2 = _ser.decode(e2, "mapping<string,uint8_t>")
+            ok = ok and len(back2) == 2 and back2.get(a) == 1 and back2.get(b) == 2
+            e3 = bytes(_encode({a, b}, "set<string>"))
+            ok = ok and _ser.decode(e3, "set<string>") == {a, b}
+            ok = ok and R.ref_decode(("mapping", (("string", ()), ("uint8_t", ()))), e2)[0] == d
+    if not ok:
+        return fail("strings %r / %r" % (a, b))
+    return done()
+
+
 def zero_spot(which: int) -> bool:
     """
     pre: 0 <= which < 4
